@@ -15,6 +15,8 @@ def prepare(case):
             for x in d["insts"]:
                 if x["ref"][1] in design.LEAVES:
                     x["props"] = {"INIT": "8'h%s" % x["name"], "k": [1, {"z": x["name"]}]}
+    if len(case) > 2 and case[2] == "late-ports":
+        ad["build"] = "late-ports"
     n = design.build_netlist(ad)
     return ad, n
 
